@@ -219,7 +219,7 @@ PLAN['C06'] = {
                     'C04 at the call site: RenderHandle::simplify returns a function that agrees with its parent on the traced box, and the parent keeps its function (cached child handles) - the handle part is proved in unit handle (the returned handle evaluates the simplification of THIS handle for THIS trace, a cache hit needs an equal trace, the parent keeps its function and invariant); what the simplification of a shape is, is C04',
                     'C01/C02 + C14 at the call site: the bulk evaluator returns, per sample, the function at that sample',
                     'pixel coordinates below 2^24 (f32 conversion exact); z is a number',
-                    'render_tiles (tile list, per-thread workers, cancellation): stand-in whose contract is one worker output per root tile of the image; TileSizesRef::new: stand-in returning a suffix of the tile-size list - proved in unit tiles (TileSizes::new accepts exactly the ordered, divisible lists; TileSizesRef::new returns the suffix starting at the root tile); NOT guaranteed by the code: the smallest size is >= 1 (TileSizes::new(&[0]) is Ok) and root tile <= 4096; usize is 64 bits'],
+                    'render_tiles (per-thread workers, cancellation): stand-in whose contract is one worker output per root tile of the image - the tile list itself (the block of render_tiles that builds it) is proved in unit tiles: one tile per root tile, aligned, inside the image, none twice, every pixel covered; that each tile of the list is rendered by Worker::render_tile and collected in order (iterator adapters, rayon) is assumed; TileSizesRef::new: stand-in returning a suffix of the tile-size list - proved in unit tiles (TileSizes::new accepts exactly the ordered, divisible lists; TileSizesRef::new returns the suffix starting at the root tile); NOT guaranteed by the code: the smallest size is >= 1 (TileSizes::new(&[0]) is Ok) and root tile <= 4096; usize is 64 bits'],
 }
 del NOT_APPLICABLE['C06']
 
@@ -235,7 +235,7 @@ PLAN['C07'] = {
                     'C04 + C05 at the call site: RenderHandle::simplify returns a function that agrees with its parent, in value and in gradient evaluation, on the traced box - the handle part (cache keyed by the trace, tapes belong to the shape) is proved in unit handle; what the simplification of a shape is, is C04/C05',
                     'C01/C02/C05 + C14 at the call site: the float-slice and grad-slice evaluators return, per sample, the (gradient) evaluation of the function at that sample',
                     'voxel coordinates below 2^24 (f32 conversion exact), grid depth >= 1, usize is 64 bits, root tile <= 4096',
-                    'render_tiles (tile list, per-thread workers, cancellation): stand-in whose contract is one Worker::render_tile output per root tile of the image; TileSizesRef::new: stand-in returning a suffix of the tile-size list - proved in unit tiles; NOT guaranteed by the code: the smallest size is >= 1 (TileSizes::new(&[0]) is Ok); Worker::new / Scratch::new: proved in unit voxel (they establish exactly the scratch sizes render_tile requires; cfg.mat() is a stand-in)'],
+                    'render_tiles (per-thread workers, cancellation): stand-in whose contract is one Worker::render_tile output per root tile of the image - the tile list itself is proved in unit tiles; that each tile of the list is rendered and collected in order (iterator adapters, rayon) is assumed; TileSizesRef::new: stand-in returning a suffix of the tile-size list - proved in unit tiles; NOT guaranteed by the code: the smallest size is >= 1 (TileSizes::new(&[0]) is Ok); Worker::new / Scratch::new: proved in unit voxel (they establish exactly the scratch sizes render_tile requires; cfg.mat() is a stand-in)'],
 }
 del NOT_APPLICABLE['C07']
 
